@@ -352,6 +352,29 @@ def _unrolled_writer(ctx, rule, key, b, ty):
         if n == "repr::Repr::set_len":
             d = describe(b, b.origin_operand(t["args"][1]))
             ctx.ob(rule, key, "set_len(digits)", d == dcd, how="published length = digit_count(self)", detail="set_len called with %s" % d)
+    # the buffer the digits are written into has room for them: it comes from
+    # with_capacity(digit_count(self)), or is the empty inline buffer when every value of the type
+    # fits the inline capacity OF THIS TARGET (two machine words)
+    M = F.const_scalar("repr::MAX_INLINE_SIZE")
+    maxdig = max(len(str(rng[0])), len(str(rng[1])))
+    recv = set()
+    for bb, t in b.calls():
+        if callee_name(t) in ("repr::Repr::as_slice_mut", "repr::Repr::set_len") and t["args"]:
+            e = strip_refs(b.origin_operand(t["args"][0]))
+            while e[0] in ("ref", "rawptr", "deref"):
+                e = strip_refs(e[2] if e[0] != "deref" else e[1])
+            if e[0] in ("mem", "local"):
+                recv.add(e[1])
+    ctx.ob(rule, key, "writes-into-own-buffer", len(recv) == 1, how="one local Repr receives the digits", detail="digits are written into %d different buffers" % len(recv))
+    live = b.reachable(0)
+    for l in sorted(recv):
+        for (dbb, si, x) in b.defs.get(l, []):
+            if dbb not in live:
+                continue   # an arm cut off by a compile-time condition (size_of::<T>() <= 4)
+            d = describe(b, ("call", dbb) if si == "term" else b.origin_rvalue(x))
+            ok = d == "ok(repr::Repr::with_capacity(%s))" % dcd or (d == "repr::Repr::new()" and M is not None and maxdig <= M)
+            ctx.ob(rule, key, "buffer-has-room", ok, line=b.line(dbb) if si == "term" else x.get("line", 0) if isinstance(x, dict) else 0, how="buffer = with_capacity(digit_count(self))" if d != "repr::Repr::new()" else "empty inline buffer: %d digits <= %d inline bytes" % (maxdig, M),
+                   detail="the digits of %s (up to %d bytes) are written into %s%s" % (ty, maxdig, d, (": the inline buffer holds %s bytes on this target" % M) if d == "repr::Repr::new()" else ""))
     # the widening cast: IntToInt from the type to an unsigned type at least as wide
     casts = []
     for blk in b.blocks:
